@@ -361,18 +361,21 @@ def oracle(built, case, real):
     jac = real["jac"]
     scale = max([1.0] + [abs(x) for x in fd])
     bad = None
+    detail = ""
     if "jac_shape" in real:
         bad = "gradient: result is not one-dimensional"
     elif len(jac) != len(req):
-        bad = "gradient: %d entries for %d requested free parameters" % (len(jac), len(req))
+        bad = "gradient: number of entries differs from the number of requested free parameters"
+        detail = "%d entries for %d requested free parameters" % (len(jac), len(req))
     else:
         for n, (a, b) in enumerate(zip(jac, fd)):
             if not (abs(a - b) <= 1e-5 * scale):
-                bad = "gradient: entry for parameter %d is %.9g, finite differences give %.9g" % (req[n], a, b)
+                bad = "gradient: an entry differs from the finite-difference derivative of the cost"
+                detail = "entry for parameter %d is %.9g, finite differences give %.9g" % (req[n], a, b)
                 break
     if bad is None:
         return None
-    f = dict(observed=jac, expected=fd, what=bad)
+    f = dict(observed=dict(jac=jac, detail=detail), expected=dict(finite_differences=fd, indices=req), what=bad)
     # signature of the unchanged code: exactly the entries of the first index of every block occurrence
     firsts = first_indices(built, case)
     want = [fd[req.index(j)] for j in firsts if j in req] if idxs is None else \
@@ -665,8 +668,7 @@ def check_optimize(case, layer_by_layer):
         want = len(angles) if indices_to_compute is None else len(set(j for j in indices_to_compute if 0 <= j < len(angles)))
         if np.asarray(res).shape != (want,) and not bad:
             bad.append(dict(observed=list(np.asarray(res).shape), expected=[want],
-                            what="gradient: optimize_parameters(use_jac=True%s) received a gradient of shape %s for %d varied parameters"
-                                 % (", layer_by_layer=True" if layer_by_layer else "", list(np.asarray(res).shape), want)))
+                            what="gradient: optimize_parameters(use_jac=True) received a gradient whose length is not the number of varied parameters"))
         return res
 
     vqa.compute_jac = wrapper
